@@ -515,6 +515,48 @@ def c09_4(ck, prog):
                     'the undo hook of expect_reply no longer removes the slot')
 
 
+def c09_8(ck, prog, rid='C09.8'):
+    r = ck.rule(rid, 'a pending reply is stamped with the time it was recorded: on every successful exit of '
+                'bus_connections_expect_reply the last value given to the record\'s time stamp comes from the monotonic '
+                'clock, not from a placeholder constant', 'TS',
+                breaks='every call expires the moment it is recorded (or never): the caller is sent NoReply for a call '
+                'that was delivered and the real reply is then refused as unrequested', floor=1)
+    fn = prog.fn('bus_connections_expect_reply', 'bus/connection.c')
+    FIELDS = ('added_tv_sec', 'added_tv_usec')
+    nclock = [0]
+
+    def on_event(user, ev, ctx):
+        st = dict(user)
+        if ev['ev'] == 'call' and ev['e'].get('callee') == 'bus_expire_list_add':
+            st['#recorded'] = 'yes'
+        for lhs, how, rhs in written_lvalues(ev):
+            if is_member(lhs) and lhs.get('field') in FIELDS:
+                if how == '&arg' and is_call(rhs, '_dbus_get_monotonic_time'):
+                    st[lhs['field']] = 'clock'
+                    nclock[0] += 1
+                elif how == '=':
+                    st[lhs['field']] = 'const' if is_int(rhs) else 'other'
+        return tuple(sorted(st.items()))
+
+    def on_exit(user, ctx, ret, ev):
+        if ctx.ret_status(ret) != 'ok':
+            return
+        st = dict(user)
+        if st.get('#recorded') != 'yes':
+            return                      # nothing was recorded on this path (e.g. the caller wants no reply)
+        bad = [f for f in FIELDS if st.get(f) != 'clock']
+        if bad:
+            ctx.report('bus_connections_expect_reply succeeds with %s last set to %s' % (
+                ', '.join(bad), ', '.join(str(st.get(f, 'nothing')) for f in bad)), ev['line'], key='stamp')
+    ex = Explorer(fn, init=(), on_event=on_event, on_exit=on_exit, track='auto', calls='ALL', cap=600000).run()
+    if not nclock[0]:
+        r.violation('expect_reply:stamp', fn.name, fn.file, fn.line, 'the pending reply is never stamped with the clock')
+    elif ex.reports:
+        r.from_reports(ex.reports, keyfn=lambda k, rep: 'expect_reply:%s' % k)
+    else:
+        r.ok('expect_reply:stamp-from-clock-last')
+
+
 def run(ck):
     ck.explanation = (
         'Static path-sensitive rules over bus/bus.c (policy gate) and bus/connection.c (pending replies): a slot '
@@ -551,3 +593,4 @@ def run(ck):
         lib.state_lifetime(prog, r, [('BusConnections', 'pending_replies'), ('BusContext', 'connections')])
         from rules.C06 import c06_10
         c06_10(ck, prog, 'C09.7')
+        c09_8(ck, prog)
